@@ -770,3 +770,309 @@ Proof.
   induction 1 as [mark wc hw|c o c' e _ IH _ Hs]; [split; reflexivity|].
   exact (c_step_blank _ _ _ _ IH Hs).
 Qed.
+
+(* ========================================================================================== *)
+(* 9. Statements shaped for the property files (Properties_C01 / Properties_C13)                *)
+(* ========================================================================================== *)
+(* both stream theorems of C01 at once, on the real buffers *)
+Theorem c_streams mark wc hw ops c e : forallb cop_wf ops = true ->
+  c_run (c_init mark wc hw) ops = Ok (c, e) ->
+  wire (ctl c) ++ B.readable (obuf c) =
+    flat_map step_block (trace (init mark wc hw) (abs_ops (c_init mark wc hw) ops)) /\
+  consumed (ctl c) ++ B.readable (ibuf c) = c_reads (c_init mark wc hw) ops /\
+  length (filter is_msg e) = c_nreads (c_init mark wc hw) ops.
+Proof.
+  intros Hwf H. split; [exact (c_outbound_stream mark wc hw ops c e Hwf H)|].
+  exact (c_inbound_stream mark wc hw ops c e Hwf H).
+Qed.
+
+(* the backlog Conn_Model / C13 talk about is outputBuffer_.readableBytes() *)
+Lemma abs_backlog c : bufs_ok c ->
+  length (outb (abs c)) = B.readableBytes (obuf c) /\ length (inb (abs c)) = B.readableBytes (ibuf c).
+Proof.
+  intros Hb. pose proof (bufs_ok_readable c Hb) as H. cbn [abs with_bufs outb inb].
+  rewrite (buf_len _ _ _ _ H), (buf_len _ _ _ _ (reach_swap _ _ _ _ H)). auto.
+Qed.
+
+(* C13_hwm_iff_crossing on the real buffer: a sendInLoop queues the high-water-mark callback iff
+   it is installed and outputBuffer_.readableBytes() rises from below the mark to at or above it,
+   and the callback's argument is the new readableBytes() *)
+Theorem c_hwm_crossing c o c' e : bufs_ok c -> cop_wf o = true -> c_step c o = Ok (c', e) ->
+  forall d k p, send_of (abs c) (abs_op c o) = Some (d, k, p) ->
+  forall n, pending (ctl c') = p ++ [FHighWater n] <->
+    has_hwm (ctl c) = true /\
+    (N.of_nat (B.readableBytes (obuf c)) < hwm (ctl c) <= N.of_nat (B.readableBytes (obuf c')))%N /\
+    n = B.readableBytes (obuf c').
+Proof.
+  intros Hb Hwf Hs d k p Hso n. pose proof (c_step_refines c o Hb Hwf) as H. rewrite Hs in H.
+  destruct H as [Hst Hb'].
+  destruct (P13_hwm_iff_crossing _ _ _ _ Hst) as [Hx _]. destruct (Hx d k p Hso) as [Hiff _].
+  specialize (Hiff n). destruct (abs_backlog c Hb) as [<- _]. destruct (abs_backlog c' Hb') as [<- _].
+  exact Hiff.
+Qed.
+
+(* the definitions, as equations (quoted next to the theorems that use them) *)
+Lemma c_init_unfold mark wc hw :
+  c_init mark wc hw = mkCC (init mark wc hw) (B.new_buf B.kInitialSize) (B.new_buf B.kInitialSize).
+Proof. reflexivity. Qed.
+
+Lemma abs_unfold c :
+  abs c = mkConn (st (ctl c)) (B.readable (obuf c)) (B.readable (ibuf c)) (writing (ctl c)) (rd_chan (ctl c))
+                 (rd_flag (ctl c)) (registered (ctl c)) (hwm (ctl c)) (has_wc (ctl c)) (has_hwm (ctl c))
+                 (wire (ctl c)) (fin (ctl c)) (pending (ctl c)) (chk (ctl c)) (delayed (ctl c))
+                 (accepted (ctl c)) (consumed (ctl c)) (delivered (ctl c)) (enq (ctl c)) (ran (ctl c))
+                 (ups (ctl c)) (downs (ctl c)).
+Proof. reflexivity. Qed.
+
+Lemma abs_op_unfold c o :
+  abs_op c o = match o with
+               | COp o => o
+               | CRead (B.KData avail) =>
+                   if 0 <? length (firstn (B.readFd_capacity (ibuf c)) avail)
+                   then EvReadData (firstn (B.readFd_capacity (ibuf c)) avail) else EvReadEOF
+               | CRead (B.KErr _) => EvReadErr
+               | CRetrieveAll => Retrieve (B.readableBytes (ibuf c))
+               end.
+Proof. destruct o as [o|[avail|z]|]; reflexivity. Qed.
+
+Lemma abs_ops_unfold c ops :
+  abs_ops c ops = match ops with
+                  | [] => []
+                  | o :: rest => abs_op c o :: match c_step c o with Ok (c', _) => abs_ops c' rest | _ => [] end
+                  end.
+Proof. destruct ops; reflexivity. Qed.
+
+Lemma bufs_ok_unfold c : bufs_ok c <-> exists lo li, BP.reach (obuf c, ibuf c) (lo, li).
+Proof. reflexivity. Qed.
+
+Lemma cop_wf_unfold o :
+  cop_wf o = match o with COp (EvReadData _) | COp EvReadEOF | COp EvReadErr => false | _ => true end.
+Proof. destruct o as [[]| |]; reflexivity. Qed.
+
+Lemma c_run_unfold c ops :
+  c_run c ops = match ops with
+                | [] => Ok (c, [])
+                | o :: rest =>
+                    match c_step c o with
+                    | Ok (c1, e1) => match c_run c1 rest with
+                                     | Ok (c2, e2) => Ok (c2, e1 ++ e2)
+                                     | Rejected => Rejected
+                                     | Fault => Fault
+                                     end
+                    | Rejected => Rejected
+                    | Fault => Fault
+                    end
+                end.
+Proof. destruct ops; reflexivity. Qed.
+
+Lemma c_reach_unfold c : c_reach c <->
+  (exists mark wc hw, c = c_init mark wc hw) \/
+  (exists c0 o e, c_reach c0 /\ cop_wf o = true /\ c_step c0 o = Ok (c, e)).
+Proof.
+  split.
+  - intros [mark wc hw|c0 o c' e H1 H2 H3]; [left; eauto|right; eauto 6].
+  - intros [(mark & wc & hw & ->)|(c0 & o & e & H1 & H2 & H3)]; [constructor|econstructor; eauto].
+Qed.
+
+Lemma fits_conc_op_unfold c o :
+  fits c o = (match o with EvReadData d => length d <=? B.readFd_capacity (ibuf c) | _ => true end) /\
+  conc_op o = (match o with
+               | EvReadData d => CRead (B.KData d)
+               | EvReadEOF => CRead (B.KData [])
+               | EvReadErr => CRead (B.KErr 0%Z)
+               | o => COp o
+               end).
+Proof. split; destruct o; reflexivity. Qed.
+
+(* the concrete machine's functions, as equations (bodies copied from Link_ConnBuf_Model.v) *)
+Lemma lift_unfold c r :
+  lift c r =
+  match r with
+  | Ok (a', e) => Ok (mkCC a' (obuf c) (ibuf c), e)
+  | Rejected => Rejected
+  | Fault => Fault
+  end.
+Proof. reflexivity. Qed.
+
+Lemma c_sendInLoop_unfold c d k :
+  c_sendInLoop c d k =
+  let a := ctl c in
+  if cstate_eqb (st a) Disconnected then Ok (c, [EvGiveUp]) else            (* :145-149 *)
+  let oldLen := B.readableBytes (obuf c) in                                  (* :151 and :179 *)
+  let direct := negb (writing a) && (oldLen =? 0) in                         (* :151 *)
+  let '(nwrote, fatal, wrote_ok) :=
+    if direct then
+      match effective a k with                                               (* :153 write(fd, data, len) *)
+      | Err e => (0, is_fatal e, false)
+      | k' => (match taken k' (length d) with Some n => n | None => 0 end, false, true)
+      end
+    else (0, false, false) in
+  let remaining := length d - nwrote in                                      (* :156 *)
+  let p1 := if wrote_ok && (remaining =? 0) && has_wc a
+            then pending a ++ [FWriteComplete] else pending a in             (* :157-160 *)
+  let queue := negb fatal && (0 <? remaining) in                             (* :177 *)
+  let p2 := if queue && (hwm a <=? N.of_nat (oldLen + remaining))%N && (N.of_nat oldLen <? hwm a)%N && has_hwm a
+            then p1 ++ [FHighWater (oldLen + remaining)] else p1 in          (* :180-185 *)
+  match (if queue then B.append (skipn nwrote d) (obuf c) else B.Ok (obuf c)) with   (* :186 *)
+  | B.Ok ob' =>
+      Ok (mkCC (mkConn (st a) [] [] (if queue then true else writing a)      (* :187-190 *)
+                       (rd_chan a) (rd_flag a) (registered a) (hwm a) (has_wc a) (has_hwm a)
+                       (wire a ++ firstn nwrote d) (fin a) p2 (chk a) (delayed a)
+                       (if fatal then accepted a else accepted a ++ d)
+                       (consumed a) (delivered a) (enq a) (ran a) (ups a) (downs a))
+               ob' (ibuf c),
+          if direct then match effective a k with Err EAGAIN => [] | Err _ => [EvErrorLogged] | _ => [] end else [])
+  | _ => Fault
+  end.
+Proof. reflexivity. Qed.
+
+Lemma c_handleWrite_unfold c k :
+  c_handleWrite c k =
+  let a := ctl c in
+  if writing a then                                                          (* :371 *)
+    match B.toStringPiece (obuf c) with                                      (* :374-375 peek(), readableBytes() *)
+    | B.Ok data =>
+        match taken (effective a k) (length data) with                       (* :373 write() *)
+        | Some n' =>
+            if 0 <? n' then                                                  (* :376 *)
+              match B.retrieve n' (obuf c) with                              (* :378 *)
+              | B.Ok ob' =>
+                  let empty := B.readableBytes ob' =? 0 in                   (* :379 *)
+                  let a1 := mkConn (st a) [] [] (if empty then false else true)      (* :381 *)
+                                   (rd_chan a) (rd_flag a) (registered a) (hwm a) (has_wc a) (has_hwm a)
+                                   (wire a ++ firstn n' data) (fin a)
+                                   (if empty && has_wc a then pending a ++ [FWriteComplete] else pending a)  (* :382-385 *)
+                                   (chk a) (delayed a) (accepted a) (consumed a) (delivered a) (enq a) (ran a)
+                                   (ups a) (downs a) in
+                  let '(a2, evs) := if empty && cstate_eqb (st a) Disconnecting     (* :386-389 *)
+                                    then shutdownInLoop a1 else (a1, []) in
+                  Ok (mkCC a2 ob' (ibuf c), evs)
+              | _ => Fault
+              end
+            else Ok (c, [EvErrorLogged])                                     (* :392-399 *)
+        | None => Ok (c, [EvErrorLogged])
+        end
+    | _ => Fault
+    end
+  else Ok (c, []).                                                           (* :401-405 *)
+
+(* TcpConnection::handleRead, TcpConnection.cc:347-366; [k] is the kernel's answer to the readv
+   of Buffer::readFd (Buffer.cc:25-58): KData avail = the descriptor has [avail] ready,
+   KErr e = -1 with errno e *)
+Definition c_handleRead (c : cconn) (k : B.kres) : res (cconn * list event) :=
+  let a := ctl c in
+  match B.readFd k (ibuf c) with                                             (* :351 *)
+  | B.Ok (ib', r) =>
+      if (0 <? B.rf_n r)%Z then                                              (* :352 n > 0 *)
+        Ok (mkCC (mkConn (st a) [] [] (writing a) (rd_chan a) (rd_flag a) (registered a) (hwm a)
+                         (has_wc a) (has_hwm a) (wire a) (fin a) (pending a) (chk a) (delayed a) (accepted a)
+                         (consumed a)
+                         (delivered a ++ B.delivered (B.readFd_capacity (ibuf c)) k)   (* ghost *)
+                         (enq a) (ran a) (ups a) (downs a))
+                 (obuf c) ib',
+            [EvMsg (B.readableBytes ib')])                                   (* :354 *)
+      else if (B.rf_n r =? 0)%Z then                                         (* :356 n == 0 *)
+        match handleCloseChecked a with                                      (* :358 *)
+        | Ok (a', e) => Ok (mkCC a' (obuf c) ib', e)
+        | Rejected => Rejected
+        | Fault => Fault
+        end
+      else Ok (mkCC a (obuf c) ib', [EvErrorLogged])                         (* :360-365 *)
+  | _ => Fault
+  end.
+Proof. reflexivity. Qed.
+
+Lemma c_handleRead_unfold c k :
+  c_handleRead c k =
+  let a := ctl c in
+  match B.readFd k (ibuf c) with                                             (* :351 *)
+  | B.Ok (ib', r) =>
+      if (0 <? B.rf_n r)%Z then                                              (* :352 n > 0 *)
+        Ok (mkCC (mkConn (st a) [] [] (writing a) (rd_chan a) (rd_flag a) (registered a) (hwm a)
+                         (has_wc a) (has_hwm a) (wire a) (fin a) (pending a) (chk a) (delayed a) (accepted a)
+                         (consumed a)
+                         (delivered a ++ B.delivered (B.readFd_capacity (ibuf c)) k)   (* ghost *)
+                         (enq a) (ran a) (ups a) (downs a))
+                 (obuf c) ib',
+            [EvMsg (B.readableBytes ib')])                                   (* :354 *)
+      else if (B.rf_n r =? 0)%Z then                                         (* :356 n == 0 *)
+        match handleCloseChecked a with                                      (* :358 *)
+        | Ok (a', e) => Ok (mkCC a' (obuf c) ib', e)
+        | Rejected => Rejected
+        | Fault => Fault
+        end
+      else Ok (mkCC a (obuf c) ib', [EvErrorLogged])                         (* :360-365 *)
+  | _ => Fault
+  end.
+Proof. reflexivity. Qed.
+
+Lemma c_add_ran_unfold a t d :
+  c_add_ran a t d =
+  mkConn (st a) (outb a) (inb a) (writing a) (rd_chan a) (rd_flag a) (registered a) (hwm a)
+         (has_wc a) (has_hwm a) (wire a) (fin a) (pending a) (chk a) (delayed a)
+         (accepted a) (consumed a) (delivered a) (enq a) (ran a ++ [(t, d)]) (ups a) (downs a).
+Proof. reflexivity. Qed.
+
+Lemma c_step_unfold c o :
+  c_step c o =
+  let a := ctl c in
+  match o with
+  | CRead k =>
+      if rd_chan a && registered a then c_handleRead c k else Rejected
+  | CRetrieveAll =>
+      if cstate_eqb (st a) Connecting then Rejected else
+      Ok (mkCC (mkConn (st a) [] [] (writing a) (rd_chan a) (rd_flag a) (registered a) (hwm a)
+                       (has_wc a) (has_hwm a) (wire a) (fin a) (pending a) (chk a) (delayed a) (accepted a)
+                       (consumed a ++ B.readable (ibuf c))                   (* ghost *)
+                       (delivered a) (enq a) (ran a) (ups a) (downs a))
+               (obuf c) (B.retrieveAll (ibuf c)), [])
+  | COp o =>
+      if user_op o && cstate_eqb (st a) Connecting then Rejected else
+      match o with
+      | Send d k =>                                                          (* TcpConnection.cc:92-99 *)
+          if cstate_eqb (st a) Connected then c_sendInLoop c d k else Ok (c, [])
+      | RunOne k =>
+          match pending a with
+          | FSend t d :: rest =>                                             (* the bound sendInLoop, :102-106 *)
+              match c_sendInLoop (mkCC (set_pending a rest) (obuf c) (ibuf c)) d k with
+              | Ok (c1, evs) => Ok (mkCC (c_add_ran (ctl c1) t d) (obuf c1) (ibuf c1), evs)
+              | Rejected => Rejected
+              | Fault => Fault
+              end
+          | _ => lift c (step a (RunOne k))
+          end
+      | EvWritable k => if registered a then c_handleWrite c k else Rejected
+      | EvReadData _ | EvReadEOF | EvReadErr => Rejected                     (* use CRead *)
+      | Retrieve n =>
+          match B.retrieve n (ibuf c) with                                   (* Buffer.h:113-124 *)
+          | B.Ok ib' =>
+              Ok (mkCC (mkConn (st a) [] [] (writing a) (rd_chan a) (rd_flag a) (registered a) (hwm a)
+                               (has_wc a) (has_hwm a) (wire a) (fin a) (pending a) (chk a) (delayed a) (accepted a)
+                               (consumed a ++ firstn n (B.readable (ibuf c)))   (* ghost *)
+                               (delivered a) (enq a) (ran a) (ups a) (downs a))
+                       (obuf c) ib', [])
+          | B.Rejected => Rejected                                           (* assert(len <= readableBytes()) *)
+          | B.Fault => Fault
+          end
+      | _ => lift c (step a o)
+      end
+  end.
+Proof. reflexivity. Qed.
+
+Lemma c_reads_unfold c ops :
+  c_reads c ops = (match ops with
+                   | [] => []
+                   | o :: rest =>
+                       (match o with CRead k => B.delivered (B.readFd_capacity (ibuf c)) k | _ => [] end)
+                       ++ match c_step c o with Ok (c', _) => c_reads c' rest | _ => [] end
+                   end) /\
+  c_nreads c ops = (match ops with
+                    | [] => 0
+                    | o :: rest =>
+                        (if match o with
+                            | CRead k => 0 <? length (B.delivered (B.readFd_capacity (ibuf c)) k)
+                            | _ => false
+                            end then 1 else 0) +
+                        match c_step c o with Ok (c', _) => c_nreads c' rest | _ => 0 end
+                    end).
+Proof. destruct ops as [|o rest]; split; reflexivity. Qed.
